@@ -247,6 +247,13 @@ def run_given_shard(mod, tier, seed, n, rec, mode=None):
                 mod.oracle(case, rec)
         except CaseTimeout:
             rec.inconclusive["safety-net timeout"] += 1
+            if os.environ.get("VERIF_SLOW_CASES"):
+                # debugging aid: keep the cases that hit the safety net
+                try:
+                    with open(os.environ["VERIF_SLOW_CASES"], "a") as fh:
+                        fh.write(canon(case) + "\n")
+                except Exception:
+                    pass
         except Inconclusive as e:
             rec.inconclusive[str(e).split(":")[0][:60]] += 1
         except PropertyViolation as v:
